@@ -82,5 +82,5 @@ revert 1fbc700 C09
 revert 8cda771 C14
 revert 41582cd C04
 revert a0a84df C05
-revert bf51494 C05 C09
+revert bf51494 C05
 revert 8ea554b C09
